@@ -16,7 +16,7 @@ def gen(chk, name, c, timeout=900):
         k = repr(sorted((a, repr(b)) for a, b in v.items() if a != "res"))
         if k not in seen:
             seen.add(k); out.append(v)
-    res = vkit.tlc("DnsMsgQ", cfg, print_sink=sink, timeout=timeout, workers=8, env={"JAVA_TOOL_OPTIONS": "-Xss64m"})
+    res = vkit.tlc("DnsMsgQ", cfg, print_sink=sink, timeout=timeout, workers=4, env={"JAVA_TOOL_OPTIONS": "-Xss64m"})
     chk.add_tlc(name, res)
     if not out:
         raise vkit.InfraError("generator %s produced nothing\n%s" % (name, res.raw[-1500:]))
